@@ -238,6 +238,19 @@ P('C04',
   thorough=dict(cases=12000000, max_size=1200, max_seconds=1500, fuzz=dict(seconds=240, jobs=8, max_len=1200)),
   )
 
+P('C05',
+  technique='fuzzing / property-based testing under AddressSanitizer: generated sampling configurations incl. the smallest admissible line, image contents of every kind (nominal, shifted towards the search limit, truncated, noise, saturated, square waves), exactly sized heap blocks for image, line copies, output arrays and payload buffers',
+  rule='configuration as in C04 (14 service combinations, rate from the admission limit to 36 MHz, 25 pixel formats, layouts), sampling window optionally cut to the smallest length the '
+       'service check admits; content = nominal signals / shifted right per line (0 .. a third of the line) / truncated / noise / saturated / square wave at run-in period / noise bursts; '
+       'decoded as an image with max_lines <= lines, through the legacy decoder, and line by line through both single-line slicers. Non-trivial: a run-in was recognised in a non-nominal image; distinct = hash of consumed choices.',
+  level_text='Generated-input search; the oracle is AddressSanitizer on exactly sized heap blocks (one byte read behind the image or a line copy, one byte written behind the output array or a '
+             'payload buffer aborts), plus return value <= max_lines and record ids within the granted services. Sampling only: absence of an out-of-bounds access is not established.',
+  level_note='Trusted: ASan runtime; the service check of the library defines "admissible" line lengths (a configuration it rejects is not decoded). The analytic worst-case index cross-check of the design is not implemented.',
+  design_ref='DESIGN.md section 2, C05',
+  quick=dict(cases=300000, max_size=4000, max_seconds=120),
+  thorough=dict(cases=10000000, max_size=4000, max_seconds=1500, fuzz=dict(seconds=300, jobs=8, max_len=4000)),
+  )
+
 NOT_YET = {}
 
 
